@@ -58,9 +58,14 @@ def e_insert(rng, text, lang, protect_top=0):
             if kind >= 0.4 and lang != "py" and rng.random() < 0.3:
                 out.append("%s/* note %d */" % (ind, rng.randint(100, 999)))  # a one-line block comment is a comment line too
             else:
-                words = rng.choice(["note", "note", "r\u00e9sum\u00e9 des donn\u00e9es", "\u6570\u636e \u2192 \u00fcber", "caf\u00e9 \U0001f600"])  # comment text is free text, not only ASCII
+                words = rng.choice(["note", "note", "r\u00e9sum\u00e9 des donn\u00e9es", "\u6570\u636e \u2192 \u00fcber", "caf\u00e9 \U0001f600",
+                                    # ... and free to mention quotes, brackets and comment markers of any language
+                                    "the \"\"\" marker opens a docstring", "it's \'\'\' quoted", "see /* this", "ends */ here", "a \" lone quote", "tick ` and ${x}", "hash # inside", "slashes // inside"])  # comment text is free text, not only ASCII
                 if not shift_at and nonascii_first:
                     words = rng.choice(["r\u00e9sum\u00e9 des donn\u00e9es", "\u6570\u636e \u2192 \u00fcber", "caf\u00e9 \U0001f600"])
+                    if rng.random() < 0.35:
+                        # (an unbalanced string / comment opener of the file's own language, inside a comment, ahead of everything else)
+                        words += {"py": " the \"\"\" marker opens a docstring"}.get(lang, " see /* this and ` that")
                 out.append("" if kind < 0.25 else ind if kind < 0.4 else "%s%s %s %d" % (ind, CM[lang], words, rng.randint(100, 999)))
             shift_at.append(i)
             k += 1
@@ -187,7 +192,14 @@ def lib_cqs(d):
 
 
 def make_base(rng, idx):
-    kind = idx % 7
+    kind = idx % 8
+    if kind == 7:
+        # suppression comments of other tools (the subject of lazy-ignores), python and typescript, below a file header
+        from ..gen import staircase
+        st = staircase.files()
+        py = st["st/lazy.py"] + "\n\ndef two_%d(a, b):\n    \"\"\"Docstring of two.\"\"\"\n    total = a + b  # noqa: E501\n    return total  # type: ignore[return-value]\n" % idx
+        ts = "/**\n * Purpose: probe\n */\n\n" + st["st/extra.ts"].split("\n", 1)[1]
+        return {"idx": idx, "kind": kind, "files": {"pkg/lz%d.py" % idx: py, "pkg/lz%d.ts" % idx: ts}, "cfg": {}, "cmds": ["lazy-ignores"]}
     if kind == 6:
         py, ts = gen_cqs(rng, idx)
         return {"idx": idx, "kind": kind, "files": {"pkg/q%d.py" % idx: py, "pkg/q%d.ts" % idx: ts}, "cfg": {}, "cmds": ["lib:cqs"]}
@@ -258,6 +270,10 @@ def make_case(rng, idx):
         seq = [e for e in seq if e not in ("rename", "reindent")] or ["insert"]  # trigger files contain names that rules inspect; hand-written layout
     if base["kind"] in (4, 6):
         seq = [e for e in seq if e != "rename"] or ["insert"]
+    if base["kind"] == 7:
+        seq = [e for e in seq if e not in ("rename", "reindent", "bom")] or ["insert"]  # (hand-written layout; a BOM would precede the header the linter reads)
+        if "insert" not in seq:
+            seq = ["insert"] + seq
     if base["kind"] == 4 and idx % 2 == 0 and "append" not in seq:
         seq = ["append"] + seq  # growing a file past the window size is the edit that separates 'fits exactly' from 'fits'
     edited = {}
@@ -269,7 +285,7 @@ def make_case(rng, idx):
         cur = text
         for e in seq:
             erng = rng if e in ("insert", "trailing-ws", "append") else __import__("random").Random("%d:%s:%s" % (idx, e, "shared"))  # same rename/reindent choice in every file
-            cur, m, fl = EDITS[e](erng, cur, lang, 12 if base["kind"] == 5 else 0)
+            cur, m, fl = EDITS[e](erng, cur, lang, 12 if base["kind"] == 5 else 8 if base["kind"] == 7 else 0)
             fmap = (lambda l, a=fmap, b=m: b(a(l)))
             if fl["columns"] is False:
                 flags["columns"] = False
